@@ -127,8 +127,27 @@ func (s *nopSub) SetVerifier(f func(context.Context, *vhdr.Header) error) error 
 }
 
 // newStoreWith: a started real store holding chain[lo-1 .. hi-1].
+// slowStore: the next newStoreWith sits on a datastore whose batch commits take this long (a busy flush loop), with this
+// write batch size
+var (
+	slowStoreDelay time.Duration
+	slowStoreBatch int
+)
+
 func newStoreWith(chain []*vhdr.Header, lo, hi int) *store.Store[*vhdr.Header] {
-	st, err := store.NewStore[*vhdr.Header](&memds.Plain{C: memds.NewCore()}, store.WithWriteBatchSize(8))
+	core := memds.NewCore()
+	batch := 8
+	if slowStoreDelay > 0 {
+		d := slowStoreDelay
+		core.WriteGate = func(w memds.Write) {
+			if w.Batch {
+				time.Sleep(d)
+			}
+		}
+		batch = slowStoreBatch
+		slowStoreDelay = 0
+	}
+	st, err := store.NewStore[*vhdr.Header](&memds.Plain{C: core}, store.WithWriteBatchSize(batch))
 	if err != nil {
 		panic(err)
 	}
